@@ -183,6 +183,27 @@ def p_place_rcm_bf():
     return [canon(rcm.place(vr, nets, machine, cons)), canon(breadth_first.place(vr, nets, machine, cons))]
 
 
+def _ladder_problem(w, h, n=None):
+    from rig.netlist import Net
+    from rig.place_and_route import Machine, Cores
+    n = n if n is not None else min(2 * w * h - 1, 7)
+    vs = [V("s%d" % i, i) for i in range(n)]
+    vr = dict((v, {Cores: 1}) for v in vs)
+    nets = [Net(vs[i], [vs[(i + 1) % n]], 1.0) for i in range(n)]
+    return vs, vr, nets, Machine(w, h, {Cores: 2}), []
+
+
+def p_place_size_ladder():
+    """every deterministic placer on machines of different sizes and shapes, one after the other (a ring of one-core vertices that
+    spills over several 2-core chips): each placement is a function of its own machine and graph, whatever sizes came before"""
+    from rig.place_and_route.place import sequential, hilbert, rcm, breadth_first
+    out = []
+    for (w, h) in ((2, 2), (4, 4), (3, 5), (8, 8), (2, 2), (16, 2), (4, 4), (1, 6)):
+        vs, vr, nets, machine, cons = _ladder_problem(w, h)
+        out.append([[w, h]] + [canon(pl.place(vr, nets, machine, cons)) for pl in (sequential, hilbert, rcm, breadth_first)])
+    return out
+
+
 def p_place_sa_seeded_rng():
     from rig.place_and_route.place import sa
     vs, vr, nets, machine, cons = graph(24, nv=4, nn=3, cores=2)
@@ -394,6 +415,18 @@ def h_place_other_graphs():
             try:
                 pl = placer.place(vr, nets, machine, cons, **kw)
                 allocate(vr, nets, machine, cons, pl)
+            except Exception:
+                pass
+
+
+def h_place_sizes():
+    """placements on machines of many sizes and shapes, large ones last"""
+    from rig.place_and_route.place import sequential, hilbert, rcm, breadth_first, sa
+    for (w, h) in ((2, 2), (3, 3), (5, 3), (8, 8), (2, 9), (4, 4), (16, 16), (32, 4), (8, 8), (4, 4)):
+        vs, vr, nets, machine, cons = _ladder_problem(w, h, n=min(2 * w * h - 1, 11))
+        for placer, kw in ((sequential, {}), (hilbert, {}), (rcm, {}), (breadth_first, {}), (sa, {"random": random.Random(w * h)})):
+            try:
+                placer.place(vr, nets, machine, cons, **kw)
             except Exception:
                 pass
 
